@@ -262,6 +262,8 @@ def shape_kind_ok(e: dict, g: str) -> bool:
         # an inline enum is not a reference to a declared enum: its base type is as much as the statement asks for
         if isinstance(e["values"][0], bool):
             return g in ("bool", "literal") or g.startswith("enum:")
+        if e.get("untyped_int"):
+            return g in ("int", "any") or g.startswith("enum:")      # integer values: an integer kind (never float / str)
         if g == "any":
             return True     # an enum without a 'type' keyword: the spec gives no structural kind to hold it to
         return g.startswith("enum:") or g == ("int" if isinstance(e["values"][0], int) else "str")
@@ -272,6 +274,8 @@ def shape_kind_ok(e: dict, g: str) -> bool:
             return g.startswith("ref:") or g.startswith("fwd:")
         return g[:4] in ("ref:", "fwd:") and norm(g[4:]) == norm(e["target"])      # (class names are derived: HTTPLeaf -> HttpLeaf)
     if k == "ref_enum":
+        if e["target"] == "UntypedLevel" and g == "int":
+            return True     # an enum without a type keyword: its value kind (integer) is as much as the spec gives
         return g.startswith("enum:") and norm(g[5:]) == norm(e["target"])
     if k == "ref_alias":
         return g == "datetime"
@@ -365,6 +369,29 @@ def trio_items(ctx: Ctx) -> list[dict]:
     return items
 
 
+def namesake_items(ctx: Ctx) -> list[dict]:
+    """Primitive properties whose JSON key is spelled exactly like a schema of the document (PascalCase keys, as .NET and Go
+    services write them): the key names a string / integer, not the schema."""
+    items = []
+    for k, (order, req) in enumerate(itertools.product([("Pet", "Status", "Holder"), ("Holder", "Pet", "Status"), ("Status", "Holder", "Pet")], (False, True))):
+        if not ctx.mine(k):
+            continue
+        schemas_all = {"Pet": {"type": "object", "properties": {"name": {"type": "string"}}},
+                       "Status": {"type": "string", "enum": ["new", "sold"]},
+                       "Holder": {"type": "object", "properties": {"Pet": {"type": "string"}, "Status": {"type": "integer"}, "Count": {"type": "integer"}},
+                                  **({"required": ["Pet"]} if req else {})}}
+        doc = {"openapi": "3.0.3", "info": {"title": "T", "version": "1"}, "components": {"schemas": {n: schemas_all[n] for n in order}},
+               "paths": {"/op1/x": {"get": {"operationId": "getX", "responses": {"200": {"description": "ok", "content": {"application/json": {
+                   "schema": {"$ref": "#/components/schemas/Holder"}}}}}}}}}
+        resolved = {"Pet": {"name": ("string", False, None)}, "Status": None,
+                    "Holder": {"Pet": ("string", req, None), "Status": ("integer", False, None), "Count": ("integer", False, None)}}
+        items.append({"doc": doc, "resolved": resolved, "on_cycle": set(), "desc": {"phase": "namesake", "order": list(order), "required": req},
+                      "feats": ["primitive_property_named_like_a_schema"], "n": ctx.shard * 100000 + 97000 + k})
+        ctx.rec.case({"namesake": order, "req": req})
+        ctx.rec.count("namesake_documents")
+    return items
+
+
 def run_shard(ctx: Ctx) -> None:
     common.use_repo()
     logging.disable(logging.CRITICAL)
@@ -410,6 +437,9 @@ def run_shard(ctx: Ctx) -> None:
             rec.count("wide_documents")
             check_pkg(ctx, [{"doc": wdoc, "resolved": wres, "on_cycle": set(), "desc": {"phase": "wide", "scheme": "rewritten", "shared": shared},
                              "feats": ["wide_document"], "n": ctx.shard * 100000 + 95000 + wi}])
+    ni = namesake_items(ctx)
+    if ni:
+        check_pkg(ctx, ni)
     ti = trio_items(ctx)
     for i in range(0, len(ti), 10):
         check_pkg(ctx, ti[i:i + 10])
@@ -429,6 +459,13 @@ def replay(ctx: Ctx, file: dict) -> None:
         check_shapes(ctx, [(j, tuple(s2)) for j, s2 in file["case"].get("chunk") or [[file["case"]["index"], file["case"]["shape"]]]], 1)
         return
     d = file["case"]["desc"]
+    if d.get("phase") == "namesake":
+        doc = file["case"]["doc"]
+        req = d.get("required", False)
+        resolved = {"Pet": {"name": ("string", False, None)}, "Status": None,
+                    "Holder": {"Pet": ("string", req, None), "Status": ("integer", False, None), "Count": ("integer", False, None)}}
+        check_pkg(ctx, [{"doc": doc, "resolved": resolved, "on_cycle": set(), "desc": d, "feats": ["primitive_property_named_like_a_schema"], "n": 1}])
+        return
     if d.get("phase") == "wide":
         wdoc, wres = graphgen.wide_doc(d["shared"])
         check_pkg(ctx, [{"doc": wdoc, "resolved": wres, "on_cycle": set(), "desc": d, "feats": ["wide_document"], "n": 1}])
